@@ -19,7 +19,7 @@ def load(path):
     return res
 
 
-latest = load(os.path.join(V, "build", "mutation-results.txt"))
+latest = load(os.path.join(V, "seeded", "latest-results.txt"))
 first = {}
 for f in sorted(os.listdir(os.path.join(V, "seeded", "history"))):
     for k, v in load(os.path.join(V, "seeded", "history", f)).items():
